@@ -93,6 +93,8 @@ impl<'a> Parser<'a> {
 
     /// Main parse function of the Pratt parser that parses while RBP < LBP
     fn expr(&mut self, rbp: usize) -> ParseResult {
+        #[cfg(feature = "verif-hooks")]
+        let _verif_parse = crate::verif::ParseGuard::enter();
         let mut left = self.nud();
         while rbp < self.peek(0).lbp() {
             left = self.led(Box::new(left?));
